@@ -158,6 +158,8 @@ macro_rules! sem_int {
 sem_int!(u8, u16, u32, u64, i8, i16, i32, i64, usize, isize);
 
 impl Sem for bool {
+    // an accepted byte other than 0/1 would re-encode differently
+    const CANONICAL: bool = true;
     fn gen(g: &mut G<'_>) -> Self {
         !g.simple && g.rng.chance(1, 2)
     }
@@ -168,6 +170,7 @@ impl Sem for bool {
 }
 
 impl Sem for () {
+    const CANONICAL: bool = true;
     const ZST: bool = true;
     fn gen(_: &mut G<'_>) -> Self {}
     fn same(&self, _: &Self) -> bool {
@@ -188,6 +191,8 @@ impl<T: Send + Sync + Debug> Sem for std::marker::PhantomData<T> {
 }
 
 impl Sem for String {
+    // accepted invalid UTF-8 would have to be replaced or dropped, hence re-encode differently
+    const CANONICAL: bool = true;
     fn gen(g: &mut G<'_>) -> Self {
         let n = g.len();
         let ascii = g.rng.chance(1, 2);
@@ -250,6 +255,7 @@ impl<const N: usize> Sem for ark_ff::BigInt<N> {
 }
 
 impl<T: Sem + CanonicalSerialize + CanonicalDeserialize> Sem for Option<T> {
+    const CANONICAL: bool = T::CANONICAL;
     fn gen(g: &mut G<'_>) -> Self {
         if g.simple || g.rng.chance(1, 3) {
             None
@@ -273,6 +279,7 @@ impl<T: Sem + CanonicalSerialize + CanonicalDeserialize> Sem for Option<T> {
 macro_rules! sem_tuple {
     ($($t:ident : $i:tt),*) => {
         impl<$($t: Sem + CanonicalSerialize + CanonicalDeserialize),*> Sem for ($($t,)*) {
+            const CANONICAL: bool = true $(&& $t::CANONICAL)*;
             fn gen(g: &mut G<'_>) -> Self { ($($t::gen(g),)*) }
             fn same(&self, o: &Self) -> bool { true $(&& self.$i.same(&o.$i))* }
             fn ref_valid(&self, v: bool) -> bool { true $(&& self.$i.ref_valid(v))* }
@@ -304,6 +311,7 @@ impl<T: Sem + CanonicalSerialize + CanonicalDeserialize, const N: usize> Sem for
 macro_rules! sem_seq {
     ($c:ident) => {
         impl<T: Sem + CanonicalSerialize + CanonicalDeserialize> Sem for $c<T> {
+            const CANONICAL: bool = T::CANONICAL;
             fn gen(g: &mut G<'_>) -> Self {
                 let n = g.len();
                 (0..n).map(|_| T::gen(g)).collect()
